@@ -21,7 +21,7 @@ ASSUMPTIONS = [
     "single-threaded: the bytes read right after an answer are the bytes the answer was about",
 ]
 MONITORS = "every (meta, hash) obtained through the state cache or carried over by update() compared with hashlib at the same instant"
-REQUIRED_COUNTERS = ["alias_path_queries", "index_update_with_swap_during_md5", "index_md5_on_reused_index", "memfs_batched_queries", "failed_link_checkouts", "failed_create_index_checkouts", "large_file_cases", "index_update_with_reloaded_old_index", "racing_writer_queries", "symlinked_files", "answers_checked", "state_hits_checked", "mutations", "get_vs_get_many_compared", "staging_listings_checked", "index_md5_checked",
+REQUIRED_COUNTERS = ["batched_lookups_of_legacy_rows", "alias_path_queries", "index_update_with_swap_during_md5", "index_md5_on_reused_index", "memfs_batched_queries", "failed_link_checkouts", "failed_create_index_checkouts", "large_file_cases", "index_update_with_reloaded_old_index", "racing_writer_queries", "symlinked_files", "answers_checked", "state_hits_checked", "mutations", "get_vs_get_many_compared", "staging_listings_checked", "index_md5_checked",
                      "index_update_carried_checked", "injected_rows", "memfs_queries", "batch_boundary_cases", "mutations_between_queries", "ext4_cases"]
 
 ALGOS = ["md5", "sha256", "md5-dos2unix", "blake3"]
@@ -90,6 +90,14 @@ def run_shard(ctx):
             with open(path, "ab") as f:
                 f.write(b"g")
             os.utime(path, ns=(st.st_atime_ns, st.st_mtime_ns))
+        elif kind == "rename-same-size-readonly":
+            # a write-protected file is replaced (rename needs no write permission on the file) by another write-protected one of the same size
+            new = bytes((b + 3) % 256 for b in data) if data else b""
+            tmp = path + ".verif-ro"
+            with open(tmp, "wb") as f:
+                f.write(new)
+            os.chmod(tmp, 0o444)
+            os.replace(tmp, path)
         elif kind == "truncate-to-zero-keep-mtime":
             # only the size changes, down to exactly nothing
             st = os.stat(path)
@@ -248,7 +256,9 @@ def run_shard(ctx):
                         victims = rng.sample(paths, rng.randrange(1, min(4, len(paths)) + 1))
                         kind = None
                     for p in victims:
-                        k = kind or rng.choice(["grow", "shrink", "same-size", "same-size", "rename-same-size", "rename-other", "touch", "delete", "rename-keep-mtime-size", "grow-keep-mtime", "truncate-to-zero-keep-mtime"])
+                        k = kind or rng.choice(["grow", "shrink", "same-size", "same-size", "rename-same-size", "rename-other", "touch", "delete", "rename-keep-mtime-size", "grow-keep-mtime", "truncate-to-zero-keep-mtime", "rename-same-size-readonly"])
+                        if os.path.islink(p) and k == "rename-same-size-readonly":
+                            k = "rename-same-size"
                         new = mutate(rng, p, cur[p], k)
                         res.count("mutations")
                         mcount[p] = mcount.get(p, 0) + 1
@@ -426,6 +436,13 @@ def run_shard(ctx):
                         elif kind == "version-2":
                             raw["version"] = 2
                         state.hashes[p] = json.dumps(raw) if kind != "garbage" else "{not json"
+                    if kind == "legacy-no-version" and rng.random() < 0.6:
+                        # a batched scan sees the old-format row first (whatever it does with it must not change what later lookups answer)
+                        many_ = list(state.get_many([p], fs, {p: _localfs_info(p)} if rng.random() < 0.5 else {}))
+                        res.count("batched_lookups_of_legacy_rows")
+                        for _p, _m, h_ in many_:
+                            if h_ is not None:
+                                verify(p, h_.name, h_.value, "State.get_many/legacy-no-version", hit=True)
                     meta, hi = state.get(p, fs)
                     if kind in ("version-2", "version-2-other-algorithm", "garbage") and hi is not None:
                         res.violation(f"injected-row-returned/{kind}", f"State.get returned a hit for a {kind} row", case=case)
